@@ -165,6 +165,42 @@ func specialScenarios() []specialScenario {
 		absLog{{Date: "2021/01/24", Entries: []absIng{{"porridge", 1}, {"tea", 2}}}, {Date: "2021/01/25", Entries: []absIng{{"tea", 1}}}})
 	add("element-that-is-also-a-food", true, bookPlus(absRecipe{"toast", []absIng{{"r1", 1}, {"butter", 0.5}}}, absRecipe{"butter", []absIng{{"fat", 8}}}),
 		logPlus([]absIng{{"toast", 1}, {"butter", 0.25}, {"fat", 1}}, []absIng{{"cal", 2}, {"toast", 2}}))
+	// ---- size (beyond any "small input" shortcut a command might take: more than 64, 128, 256 days or recipes)
+	{
+		var lg absLog
+		foods := []string{"r1", "r2", "u", "a/b", "a/c", "empty", "x/y/z"}
+		for d := 0; d < 300; d++ {
+			date := fmt.Sprintf("20%02d/%02d/%02d", 21+d/336, 1+(d/28)%12, 1+d%28)
+			switch {
+			case d == 70 || d == 200:
+				date = "2021/01/05" // a date that is there already (day 4), twice more, far apart
+			case d%97 == 50:
+				date = fmt.Sprintf("2019/%02d/15", 1+d/97) // out of order: earlier than everything around it
+			}
+			day := absDay{Date: date}
+			for e := 0; e <= d%3; e++ {
+				day.Entries = append(day.Entries, absIng{foods[(d+e*3)%len(foods)], float64(1+(d+e)%5) * 0.5 * float64(1-2*((d+e)%7/6))})
+			}
+			lg = append(lg, day)
+		}
+		add("many-days", true, specialBaseBook, lg)
+		book := append(absBook{}, specialBaseBook...)
+		book = append(book, absRecipe{"shared", []absIng{{"r1", 1}, {"salt", 0.5}}})
+		var entries1, entries2 []absIng
+		for r := 0; r < 150; r++ {
+			rec := absRecipe{fmt.Sprintf("dish/%03d", r), []absIng{{"shared", float64(1 + r%4)}, {fmt.Sprintf("el-%d", r%7), 1.5}}}
+			if r%10 == 9 {
+				rec.Ings = append(rec.Ings, absIng{fmt.Sprintf("dish/%03d", r-1), 1}) // a third level
+			}
+			book = append(book, rec)
+			if r%2 == 0 {
+				entries1 = append(entries1, absIng{rec.Name, float64(1+r%3) * 0.5})
+			} else {
+				entries2 = append(entries2, absIng{rec.Name, -0.5})
+			}
+		}
+		add("many-recipes", true, book, logPlus(entries1, entries2))
+	}
 	add("empty-book", true, absBook{}, specialBaseLog())
 	add("empty-log", true, specialBaseBook, absLog{})
 	return out
